@@ -45,8 +45,8 @@ def model_cases(p):
     for c in p["cases"]:
         try:
             k = c["kind"]
-            grids = [mk(g) for g in c["grids"]]
-            data = torch.tensor(c["data"], dtype=torch.float64)
+            grids = [mk(g) for g in c.get("grids", [])]
+            data = torch.tensor(c.get("data", []), dtype=torch.float64)
             st = [G1.stored(g) for g in grids]
             if k == "axes":
                 ff = FlowFields(data, grids if len(grids) > 1 or data.shape[0] == 1 else grids[0], axes=AX[c["a"]])
@@ -72,6 +72,19 @@ def model_cases(p):
                 plain = ImageBatch(data, grids).sample(to if len(to) > 1 else to[0])
                 res.append({"val": out(r.tensor()), "plain": out(plain.tensor()), "axes": r.axes().value, "stored": st,
                             "stored_to": [G1.stored(g) for g in to], "ngrids": len(r.grids())})
+            elif k == "norm":
+                x = torch.tensor(c["x"], dtype=torch.float64).reshape(1, 1, -1, 1)        # one axis with n = len(x) samples
+                x = torch.cat([x, x.flip(2)], dim=-1)                                         # second axis of size 1
+                fn = {"normalize_grid": PS.normalize_grid, "denormalize_grid": PS.denormalize_grid}.get(c["fn"])
+                if fn is not None:
+                    r = fn(x, size=(c["n"], c["n"]), align_corners=c["ac"])
+                    res.append({"val": out(r[0, 0, :, 0])})
+                else:
+                    v = torch.tensor(c["x"], dtype=torch.float64).reshape(1, 1, -1, 1).expand(1, 2, len(c["x"]), 1)
+                    fn = {"normalize_flow": FL.normalize_flow, "denormalize_flow": FL.denormalize_flow}[c["fn"]]
+                    r = fn(v, size=(c["n"], c["n"]), align_corners=c["ac"])
+                    res.append({"val": out(r[0, 0, :, 0])})
+                continue
             else:
                 res.append({"error": "unknown kind"})
         except Exception as e:  # noqa
